@@ -70,11 +70,27 @@ def run(ctx):
     if rb['edges_seen'] != rb['edges_total'] and not rb['violations']:
         raise vf.Inconclusive('decoder replay covered %d of %d edges' % (rb['edges_seen'], rb['edges_total']))
     # C. byte level
+    # first use of the Huffman tree under concurrency: one fresh process per attempt (the tree is built once per process)
+    cold = {'processes': 0, 'decoders': 0}
+    for k in range(8 if t == 'quick' else 60):
+        cout = os.path.join(ctx.scratch, 'c18cold_%d.json' % k)
+        p = ctx.overlay_test('pkg/http2/hpack', ['hpack/c18cold_test.go'], '^TestVFC18Cold$', timeout=300, env={'VF_COLD_OUT': cout}, pkgname='hpack', tags=None)
+        if not os.path.exists(cout):
+            raise vf.Inconclusive('cold-start driver wrote no result (go test rc=%d):\n%s' % (p.returncode, vf.tail(p.stdout, 30)))
+        o = vf.read_json(cout)
+        cold['processes'] += 1
+        cold['decoders'] += o['decoders']
+        if o.get('failures'):
+            ctx.violation({'check': 'C18', 'kind': 'decode_mismatch', 'input_class': 'huffman_first_use_concurrent'},
+                          'a well-formed RFC 7541 example block was not decoded as specified by one of %d Decoders that used Huffman decoding for the first time in the process together: %s'
+                          % (o['decoders'], o['failures'][:3]), o)
+            break
     rc = vf.run_overlay_driver(ctx, 'pkg/http2/hpack', FILES, '^TestVFC18Bytes$', env=env, out_name='c18c.json')
     vf.absorb(ctx, rc)
     first_hist = [json.loads(x) for x in tv['lines'][1:6]]
     cov = {
         'traces_validated_against_impl': accepted + rb['paths'],
+        'huffman_first_use_under_concurrency': cold,
         'samples': [{'round_trip_history_prefix': first_hist}] + (rb.get('samples') or [])[:2],
         'round_trip_histories_accepted': accepted, 'round_trip_events': ra['steps'], 'round_trip_actions': ra['actions'],
         'writes_with_two_size_updates': ra['extra'].get('writes_with_two_size_updates'),
